@@ -165,7 +165,7 @@ static void wait_readers(int n)
 		vrt_await(all_ready, NULL);
 }
 
-static int x, y, z, x2, y2;
+static int x, y, z, w, x2, y2;
 /* param yield_in_section: a free hand-over in the middle of the section lets updaters start
  * inside it without spending a preemption */
 #define MID() do { if (vrt_param("yield_in_section", 0)) vrt_yield(); } while (0)
@@ -684,6 +684,95 @@ static void run_leave_block(void)
 	check_registry("leave_block");
 }
 
+/* a thread registers while a grace period is waiting for another reader (registry lock dropped) and STAYS registered: it must be in
+ * the registry when that grace period has finished, and the next grace period must wait for its section */
+#define N_SYNC1		352
+#define N_REG2		353
+#define N_GP1DONE	354
+#define N_R2IN		355
+static int sync1_pred(void *a) { (void)a; return (int)vrt_note_get(N_SYNC1); }
+static int reg2_pred(void *a) { (void)a; return (int)vrt_note_get(N_REG2); }
+static int gp1done_pred(void *a) { (void)a; return (int)vrt_note_get(N_GP1DONE); }
+static int r2in_pred(void *a) { (void)a; return (int)vrt_note_get(N_R2IN); }
+
+static void *rd_hold_until_reg2(void *a)
+{
+	int s;
+
+	(void)a;
+	reader_enter();
+	RD_LOCK();
+	s = sec_begin();
+	setr(0, LD(x));
+	vrt_await(reg2_pred, NULL);	/* the first grace period is held open until the late thread has registered */
+	setr(1, LD(y));
+	sec_end(s);
+	RD_UNLOCK();
+	/* stays registered (idle) until the updater has inspected the registry: nobody modifies it at that moment */
+#ifdef FLAVOR_QSBR
+	rcu_thread_offline();
+	vrt_await(gp1done_pred, NULL);
+	rcu_thread_online();
+#else
+	vrt_await(gp1done_pred, NULL);
+#endif
+	reader_leave();
+	return NULL;
+}
+
+static void *rd_late_register(void *a)
+{
+	int s;
+
+	(void)a;
+	vrt_await(sync1_pred, NULL);
+	reader_enter();
+	vrt_note_set(N_REG2, 1);
+#ifdef FLAVOR_QSBR
+	rcu_thread_offline();		/* an online qsbr thread that blocks would itself hold the first grace period */
+	vrt_await(gp1done_pred, NULL);
+	rcu_thread_online();
+#else
+	vrt_await(gp1done_pred, NULL);
+#endif
+	RD_LOCK();
+	s = sec_begin();
+	setr(2, LD(z));
+	vrt_note_set(N_R2IN, 1);
+	MID();
+	setr(3, LD(w));
+	sec_end(s);
+	RD_UNLOCK();
+	reader_leave();
+	return NULL;
+}
+
+static void run_late_register(void)
+{
+	pthread_t t1, t2;
+
+	updater_reg();
+	pthread_create(&t1, NULL, rd_hold_until_reg2, NULL);
+	wait_readers(1);
+	pthread_create(&t2, NULL, rd_late_register, NULL);
+	ST(x, 1);
+	vrt_note_set(N_SYNC1, 1);
+	do_sync();
+	ST(y, 1);
+	check_registry("late_register (after the grace period during which the thread registered)");
+	vrt_note_set(N_GP1DONE, 1);
+	vrt_await(r2in_pred, NULL);
+	ST(z, 1);
+	do_sync();
+	ST(w, 1);
+	pthread_join(t1, NULL);
+	pthread_join(t2, NULL);
+	updater_unreg();
+	VRT_CHECK(!(r(0) == 0 && r(1) == 1), "late_register: first reader saw x=0 then y=1");
+	VRT_CHECK(!(r(2) == 0 && r(3) == 1), "late_register: the thread that registered during the previous grace period saw z=0 then w=1");
+	check_intervals("late_register");
+}
+
 /* n readers come and go while a grace period runs; bp: the registry grows past its initial capacity */
 static void *rd_churn(void *a)
 {
@@ -1141,6 +1230,7 @@ struct vrt_scenario vrt_scenarios[] = {
 	{ "bp_fork_handlers", run_bp_fork_handlers, "bp: before_fork / after_fork_parent || synchronize_rcu || reader" },
 #endif
 	{ "leave_block", run_leave_block, "a thread that left (unregistered/offline/exited) is not waited for" },
+	{ "late_register", run_late_register, "a thread registers while a grace period waits for another reader, stays registered; next grace period must wait for it" },
 	{ "churn", run_churn, "n readers come and go around a grace period (bp: registry growth)" },
 	{ "slot_hole", run_slot_hole, "a reader exits while a later one is alive in a section; a new one registers" },
 #ifdef FLAVOR_BP
